@@ -904,3 +904,39 @@ def pending_truncate_consumers(ctx, rep):
                 rep.check(body.id in allowed, "O3", short(body.id), "pending_truncate|%s" % k, "InMemory.pending_truncate is modified at %s in %s (only Rollback::truncate sets it and writeout_start consumes it)" % (ln, short(body.id)), site=ln, detail="%s in %s" % (k, short(body.id)))
     rep.floor("pending_truncate mutation sites", n, 2)
     return n
+
+
+# ---- O12 (C03): writer / redo agreement on the occupancy map ---------------------------------------
+
+
+def o12(ctx, rep):
+    """in the sync writer (DB::prepare_sync) and in the WAL redo (recover), every mutation of the in-memory
+    occupancy map (MetaMap::set_tombstone / set_full) is followed, on every path to the next iteration or
+    to the return, by queueing that bucket's meta page for writeout (insert of page_index(bucket)): a
+    mutated but unwritten map page makes the file disagree with the state the commit / recovery stands for."""
+    n = 0
+    m = ctx.model
+    for fn in ("nomt::bitbox::DB::prepare_sync", "nomt::bitbox::recover"):
+        body = ctx.facts.body(fn)
+        muts = [(b, t) for b, t in body.calls() if (t.get("callee") or "") in ("nomt::bitbox::meta_map::MetaMap::set_tombstone", "nomt::bitbox::meta_map::MetaMap::set_full")]
+        queues = []
+        for b, t in body.calls():
+            c = t.get("callee") or ""
+            if c.endswith("HashSet::insert") or c.endswith("HashSet::<T, S>::insert") or (c.endswith("::insert") and "hash" in c.lower()):
+                if len(t["args"]) > 1 and any(r.kind == "call" and r.what.endswith("MetaMap::page_index") for r in trace(body, t["args"][1])):
+                    queues.append(b)
+        rep.floor("O12 occupancy-map mutation sites in %s" % short(fn), len(muts), 2)
+        loops = m.loops(body)
+        rem = set(body.ok_removed()) | set(queues)
+        for (b, t) in muts:
+            n += 1
+            heads = [h for (h, blk, lat) in loops if b in blk]
+            inner = None
+            if heads:
+                # innermost loop = smallest body
+                inner = min(((h, blk) for (h, blk, lat) in loops if b in blk), key=lambda x: len(x[1]))[0]
+            targets = set(body.return_blocks()) | ({inner} if inner is not None else set())
+            reach = body.reachable(body.succ(b), rem)
+            ok = not (reach & targets)
+            rep.check(ok, "O12", short(fn), "%s=>queue-meta-page" % t["callee"].split("::")[-1], "after %s at %s a path reaches the next iteration / return without queueing the bucket's meta page for writeout: the hash-table file would keep the old occupancy byte" % (t["callee"].split("::")[-1], t.get("ln")), site=t.get("ln"), detail="%s at %s is followed on every path by insert(page_index(bucket))" % (t["callee"].split("::")[-1], t.get("ln")))
+    return n
